@@ -23,6 +23,8 @@ if os.path.exists(_extra):
     _s.loader.exec_module(_m)
     COMPS += _m.COMPS
     SPEC += _m.SPEC
+else:
+    _m = None
 
 LEVEL = ("Exactly-once teardown (at most one Accounting-Stop and one map removal per session, nothing held afterwards, "
          "second termination is the identity) is proved over the Lean model of pppoe.SessionTeardown for ALL sequences of "
@@ -55,6 +57,11 @@ def regenerate(ctx):
         msg = "; ".join(l for l in out.splitlines() if l.startswith("extractpaths:") and "wrote" not in l) or out[-800:]
         ctx.broken.append(("translator", "extract paths failed: " + msg))
     ctx.notes.append("extractpaths rc=%d" % rc)
+
+
+if _m is not None:
+    LEVEL = LEVEL + " DHCPv4 paths: " + getattr(_m, "LEVEL", "")
+    ASSUME = ASSUME + list(getattr(_m, "ASSUME", []))
 
 
 def run(tier, seed):
